@@ -270,7 +270,7 @@ func intrinsic(fr *frame, fn *ssa.Function, args []value) (value, bool) {
 		if !ok || !ok2 || cell == nil {
 			panic(engineError{"verifrt.Arbitrary needs a non-nil pointer"})
 		}
-		d := &docRec{name: argString(args[1]), format: argString(args[2]), t: pt.Elem(), root: cell}
+		d := &docRec{name: argString(args[1]), format: argString(args[2]), t: pt.Elem(), root: cell, i: fr.i}
 		for _, o := range e.docs {
 			if o.name == d.name {
 				panic(engineError{"verifrt.Arbitrary: document " + d.name + " built twice"})
